@@ -37,9 +37,9 @@ type Frame struct {
 func IsControl(op byte) bool { return op&0x8 != 0 }
 
 // AppendFrame encodes f. LenBits 0 means minimal encoding; 16 or 64 force that
-// (possibly non-minimal) encoding. declLen < 0 means len(f.Payload); a different
-// value writes that length into the header while still appending f.Payload
-// (used to build truncated / oversized frames).
+// (possibly non-minimal) encoding. declLen == -1 means len(f.Payload); any other
+// value is written into the header as is (as an unsigned 64-bit pattern) while still
+// appending f.Payload (used to build truncated / oversized frames).
 func AppendFrame(dst []byte, f Frame, declLen int64) []byte {
 	b0 := f.Opcode & 0x0f
 	if f.Fin {
@@ -55,7 +55,7 @@ func AppendFrame(dst []byte, f Frame, declLen int64) []byte {
 		b0 |= 0x10
 	}
 	n := uint64(len(f.Payload))
-	if declLen >= 0 {
+	if declLen != -1 {
 		n = uint64(declLen)
 	}
 	bits := f.LenBits
